@@ -271,7 +271,10 @@ ROUND12 = {
  "C07": "who may arm the survey timer (timer table, from C10)",
  "C08": "send contract of the transports and the core (from C17)",
  "C09": "send contract of the core and the transports (from C17)",
- "C10": "E11 closer-leak (from C12; a resource stored in an object the function has just made is followed through that object); accept loops perform no handshake step (from C16)",
+ "C04": "re-arm stops the previous timer (from C10; found D18); REQ's ready list only permuted outside its transition table (element writes form an exchange)",
+ "C05": "reply-size-conditions-exact: raw REP/RESPONDENT SendMsg queues or discards on no header/body condition other than len(Header) >= 4",
+ "C16": "websocket single writer / single reader (frame I/O methods of *websocket.Conn are called by wsPipe.Send / Recv only, never from a handler)",
+ "C10": "rearm-stops-previous: every store of a new timer into a timer field is dominated by a Stop of that field (directly, under its nil test, through a helper or a method of the object), or is under a nil test, or runs only as that timer's callback (three frozen exceptions with reasons; found D18); E11 closer-leak (from C12; a resource stored in an object the function has just made is followed through that object); accept loops perform no handshake step (from C16)",
  "C11": "no wait under a lock (E4, from C12); one deadline per blocked call (from C18)",
  "C12": "E11: a resource stored into a fresh local object is owned by that object until the object is returned or published",
  "C14": "std-config-fields: net.Dialer / websocket.Dialer fields from a closed list (from C15)",
